@@ -41,6 +41,13 @@ func crossNames(t *rapid.T, d *Decl) {
 		for _, o := range d.CmdOpts(c, chain) {
 			longs[o.NsLong] = true
 		}
+		// namespaces assigned to the commands of the chain prefix every long name
+		pref := ""
+		for _, cc := range chain {
+			if cc.G.Namespace != "" {
+				pref += cc.G.Namespace + d.NsD()
+			}
+		}
 		n := rapid.IntRange(0, 2).Draw(t, "ncross")
 		for i := 0; i < n; i++ {
 			a := opts[rapid.IntRange(0, len(opts)-1).Draw(t, "crossA")]
@@ -70,7 +77,7 @@ func crossNames(t *rapid.T, d *Decl) {
 			case 4:
 				// long name equal to another option's field name (top-level groups only,
 				// so that the namespaced name is the bare name)
-				if !longs[b.Field] {
+				if !longs[pref+b.Field] {
 					isTop := false
 					for gi := range c.G.Groups {
 						for oi := range c.G.Groups[gi].Options {
@@ -85,9 +92,9 @@ func crossNames(t *rapid.T, d *Decl) {
 						}
 					}
 					if isTop && a.Long != "" {
-						delete(longs, a.Long)
+						delete(longs, pref+a.Long)
 						a.Long = b.Field
-						longs[b.Field] = true
+						longs[pref+b.Field] = true
 					}
 				}
 			}
@@ -189,6 +196,10 @@ func c13Rejected(c *C13Case) string {
 
 func c13Oracle(c *C13Case) string {
 	st := S("C13")
+	if c.D.DupNamesInCommand() {
+		st.Exclude("two options of one command share a name (outside the generators' preconditions)")
+		return ""
+	}
 	if c.Bad != nil && c.BadAt >= 0 && c.BadAt < len(c.Lines) {
 		if m := c13Rejected(c); m != "" {
 			return m
